@@ -112,6 +112,10 @@ func workDir() string {
 }
 
 func newManager(sc *script, logger logging.EventLogger) (*block.Manager, func(), error) {
+	return newManagerWith(sc, logger, 0)
+}
+
+func newManagerWith(sc *script, logger logging.EventLogger, maxPending uint64) (*block.Manager, func(), error) {
 	priv, pub, err := crypto.GenerateEd25519Key(nil)
 	if err != nil {
 		return nil, nil, err
@@ -133,6 +137,7 @@ func newManager(sc *script, logger logging.EventLogger) (*block.Manager, func(),
 	cf.Node.BlockTime.Duration = time.Duration(sc.B) * time.Millisecond
 	cf.Node.LazyBlockInterval.Duration = time.Duration(sc.I) * time.Millisecond
 	cf.DA.BlockTime.Duration = time.Second
+	cf.Node.MaxPendingHeadersAndData = maxPending
 	m, err := block.NewManager(context.Background(), sg, cf, gen, storepkg.New(hx.NewLogDS(nil)), &hx.Exec{}, &hx.Seq{}, hx.NewDA(),
 		logger, nil, nil, &hx.Bcast[*types.SignedHeader]{}, &hx.Bcast[*types.Data]{}, block.NopMetrics(), -1, 0, block.DefaultManagerOptions())
 	if err != nil {
@@ -155,6 +160,29 @@ func sleepUntil(ctx context.Context, t time.Time) bool {
 	case <-tm.C:
 		return true
 	}
+}
+
+// refusalProbe asks the REAL publishBlock what it does at the pending limit (the refused productions of
+// the scenarios are played by the recorder): a manager with MaxPendingHeadersAndData = 1 produces one
+// real block (hx doubles), then one header is pending and the next call must refuse.  Returns what the
+// refusing call returned and whether the height moved.
+func refusalProbe() (refusedSilently bool, detail string) {
+	sc := &script{mode: "lazy", B: 200, I: 1000}
+	m, cleanup, err := newManagerWith(sc, logging.Logger("verif"), 1)
+	if err != nil {
+		return false, "NewManager: " + err.Error()
+	}
+	defer cleanup()
+	ctx := context.Background()
+	if err := m.VerifPublishBlock(ctx); err != nil {
+		return false, "first production failed: " + err.Error()
+	}
+	h1, _ := m.GetStoreHeight(ctx)
+	ph, pd := m.VerifPendingCounts()
+	err = m.VerifPublishBlock(ctx)
+	h2, _ := m.GetStoreHeight(ctx)
+	detail = fmt.Sprintf("height %d, pending headers %d / data %d, limit 1: publishBlock returned %v, height afterwards %d", h1, ph, pd, err, h2)
+	return h1 >= 1 && (ph >= 1 || pd >= 1) && err == nil && h2 == h1, detail
 }
 
 // runReal drives the real AggregationLoop of a real Manager with the production function replaced
